@@ -16,6 +16,7 @@
 package main
 
 import (
+	"bytes"
 	"errors"
 	"fmt"
 	"math/rand"
@@ -32,7 +33,9 @@ import (
 	"github.com/btcsuite/btcd/rpcclient"
 	"github.com/btcsuite/btcd/wire/v2"
 	"github.com/lightninglabs/neutrino"
+	"github.com/btcsuite/btcwallet/walletdb"
 	"github.com/lightninglabs/neutrino/blockntfns"
+	"github.com/lightninglabs/neutrino/filterdb"
 	"github.com/lightninglabs/neutrino/headerfs"
 	"github.com/lightninglabs/neutrino/pushtx"
 	"github.com/lightninglabs/neutrino/query"
@@ -80,8 +83,9 @@ type Scn struct {
 	NPeers   int      `json:"n_peers"`
 	Silent   []string `json:"silent"`
 	TxMode   string   `json:"tx_mode"`
-	Phase    string   `json:"phase"` // idle | midsync | reorg | nopeers | notstarted | comp (see comp.go)
+	Phase    string   `json:"phase"` // idle | midsync | reorg | nopeers | notstarted | comp (see comp.go) | backlog
 	Comp     *Comp    `json:"comp,omitempty"`
+	Backlog  int      `json:"backlog,omitempty"` // phase backlog: filters queued for the batch writer right before Stop
 	DelayMs  int      `json:"delay_ms"`
 	Calls    []string `json:"calls"`
 	Persist  bool     `json:"persist"`
@@ -315,9 +319,22 @@ func runScn(s *Scn, work string) (fails []c.ImplFailure) {
 			calls = append(calls, startCall(kd, cl, base, r))
 		}
 	}
+	var qHashes []chainhash.Hash
+	var qRaws [][]byte
 	switch s.Phase {
 	case "notstarted":
 		// no peer handler runs, so no API call can be made
+	case "backlog":
+		// PersistToDisk: the filters of an optimistic getcfilters batch have
+		// just been handed to the filter batch writer (10 per database
+		// transaction), and Stop is called at once, while the writer's
+		// queue still holds most of them.
+		var err error
+		qHashes, qRaws, err = cl.CS.VerifQueueFilterWrites(s.Backlog)
+		if err != nil {
+			fail("cannot queue filters: "+err.Error(), "setup")
+			return
+		}
 	case "reorg":
 		launch()
 		cur = base.Fork(base.Tip()-1-r.Intn(5), 8, int64(s.ID), 0.3)
@@ -386,6 +403,11 @@ func runScn(s *Scn, work string) (fails []c.ImplFailure) {
 		} else {
 			o.Reopen = ns.ReopenCheck(dir, []*ns.Chain{base, cur})
 			o.ReopenDone = true
+			if s.Phase == "backlog" && o.Reopen.FiltersOK {
+				if what := checkQueuedFilters(dir, qHashes, qRaws); what != "" {
+					o.Reopen.FiltersOK, o.Reopen.What = false, what
+				}
+			}
 		}
 		os.RemoveAll(dir)
 	}
@@ -397,11 +419,48 @@ func runScn(s *Scn, work string) (fails []c.ImplFailure) {
 	return
 }
 
+// checkQueuedFilters: after a reopen the filter database holds a PREFIX of the
+// filters that were queued before Stop (the writer persists them in order, a
+// batch per transaction; what was still queued is dropped), each equal to the
+// queued one. Returns "" or what is wrong.
+func checkQueuedFilters(dir string, hashes []chainhash.Hash, raws [][]byte) string {
+	db, err := walletdb.Open("bdb", filepath.Join(dir, "neutrino.db"), true, 5*time.Second, false)
+	if err != nil {
+		return "open db: " + err.Error()
+	}
+	defer db.Close()
+	fdb, err := filterdb.New(db, ns.Params)
+	if err != nil {
+		return "open filter db: " + err.Error()
+	}
+	missingAt := -1
+	for i := range hashes {
+		f, err := fdb.FetchFilter(&hashes[i], filterdb.RegularFilter)
+		if err != nil {
+			if missingAt < 0 {
+				missingAt = i
+			}
+			continue
+		}
+		if missingAt >= 0 {
+			return fmt.Sprintf("queued filter %d is on disk but filter %d is not: not a prefix", i, missingAt)
+		}
+		raw, err := f.NBytes()
+		if err != nil || !bytes.Equal(raw, raws[i]) {
+			return fmt.Sprintf("queued filter %d differs on disk", i)
+		}
+	}
+	return ""
+}
+
 // hangTag names the root cause of a Stop hang when the scenario contains the
 // ingredients of a known one.
 func hangTag(s *Scn, o *Obs) string {
 	if s.Phase == "notstarted" {
 		return "F40-stop-without-start"
+	}
+	if s.Phase == "backlog" {
+		return "stop-hang-filter-backlog"
 	}
 	for i, k := range o.Calls {
 		if k.Kind == "getutxo" && !k.Pre {
@@ -503,15 +562,18 @@ func corpus(seed, tip int64) []Scn {
 	// getheaders: the client stays at genesis) parks in waitForBlocks on its
 	// block subscription; Stop closes the subscription and the rescan has to
 	// come back (seeded change C17 round 2 no. 1).
+	// Stop with a backlog in the filter batch writer (seeded change C17-12)
+	b1, b2 := mk(14, "backlog", []string{}), mk(15, "backlog", []string{})
+	b1.Persist, b1.Backlog, b2.Persist, b2.Backlog = true, 400, true, 37
 	cs = append(cs, mk(12, "idle", []string{"getheaders"}, "rescan"),
-		mk(13, "midsync", []string{"getheaders"}, "peers", "rescan"))
+		mk(13, "midsync", []string{"getheaders"}, "peers", "rescan"), b1, b2)
 	return cs
 }
 
 // ---------------------------------------------------------------------
 // Coq terms.
 
-var phaseCode = map[string]int64{"idle": 0, "midsync": 1, "reorg": 2, "nopeers": 3, "notstarted": 4, "comp": 5}
+var phaseCode = map[string]int64{"idle": 0, "midsync": 1, "reorg": 2, "nopeers": 3, "notstarted": 4, "comp": 5, "backlog": 6}
 var kindCode = map[string]int64{"getblock": 0, "getcfilter": 1, "getutxo": 2, "rescan": 3, "sendtx": 4, "peers": 5}
 var classCode = map[string]int64{"ok": 0, "shutdown": 1, "cancel": 2, "timeout": 3, "other": 4, "hung": 5}
 var silentBit = map[string]int64{"getdata": 1, "getcfilters": 2, "inv": 4, "getcfheaders": 8, "getheaders": 16, "getcfcheckpt": 32}
